@@ -153,7 +153,7 @@ def gen_sim_variant(rng, bn, nodes, J, tier):
             _, EJ = oracle.joint_table({"nodes": enodes, "card": ecard, "cpds": cp})
             accs.append(prob_of(enodes, EJ, accept))
         acc = min(accs)
-        if acc >= 0.03 and n / acc <= 12000:
+        if acc >= (0.15 if var["partial"] else 0.03) and n / acc <= 12000:
             var["accept_prob"] = acc
             return var
         n = min(n, 17)
